@@ -252,6 +252,8 @@ class TrrCtl:
             self.w.write_all()
             if not os.path.exists(self.edr):
                 open(self.edr, "wb").close()
+            if self.after_done == 0:
+                self.exited = True
             return
         if self.after_done > 0:
             self.after_done -= 1
@@ -262,7 +264,7 @@ class TrrCtl:
         self.tick()
 
 
-def run_trr_schedule(meta, data, ends, expected, cuts, polls, scratch):
+def run_trr_schedule(meta, data, ends, expected, cuts, polls, scratch, linger=2):
     import infretis.classes.engines.gromacs as G
     path = os.path.join(scratch, "traj.trr")
     edr = os.path.join(scratch, "traj.edr")
@@ -271,6 +273,7 @@ def run_trr_schedule(meta, data, ends, expected, cuts, polls, scratch):
             os.remove(f)
     w = P.ChunkWriter(path, data, ends)
     ctl = TrrCtl(w, cuts, polls, edr)
+    ctl.after_done = linger        # 0: mdrun exits in the same instant as its last write
 
     class _Sub:
         PIPE = -1
@@ -363,11 +366,12 @@ def run(case):
             else:
                 cutpos = range(1, n)
             for c in cutpos:
-                schedules.append({"cuts": [c], "polls": [1 + (c % 2)]})
+                schedules.append({"cuts": [c], "polls": [1 + (c % 2)], "linger": (c // 2) % 3})
             for _ in range(case.get("nmulti", 40)):
                 m = k.choose("ncuts", 6) + 2
                 cuts = sorted(set(1 + k.choose("cut", max(1, n - 1)) for _ in range(m)))
-                schedules.append({"cuts": cuts, "polls": [k.choose("polls", 3) for _ in cuts]})
+                schedules.append({"cuts": cuts, "polls": [k.choose("polls", 3) for _ in cuts],
+                                  "linger": 2 - k.choose("exit_with_last_write", 3)})
         for sch in schedules:
             evals += 1
             for c in sch["cuts"]:
@@ -375,7 +379,11 @@ def run(case):
                 if c not in ends:
                     torn_polls += 1
             try:
-                runner(meta, data, ends, expected, sch["cuts"], sch["polls"], scratch)
+                if fmt == "trr":
+                    runner(meta, data, ends, expected, sch["cuts"], sch["polls"], scratch,
+                           linger=sch.get("linger", 2))
+                else:
+                    runner(meta, data, ends, expected, sch["cuts"], sch["polls"], scratch)
             except Violation as v:
                 site = f"{fmt}_reader"
                 known = any(e.get("property") == PROP and e.get("class") == v.vclass
@@ -412,10 +420,10 @@ def shrink_candidates(case):
         cuts, polls = only["cuts"], only["polls"]
         for i in range(len(cuts)):
             if len(cuts) > 1:
-                yield dict(case, only={"cuts": cuts[:i] + cuts[i + 1:], "polls": polls[:i] + polls[i + 1:]})
+                yield dict(case, only=dict(only, cuts=cuts[:i] + cuts[i + 1:], polls=polls[:i] + polls[i + 1:]))
         for i, p in enumerate(polls):
             if p > 1:
-                yield dict(case, only={"cuts": cuts, "polls": polls[:i] + [1] + polls[i + 1:]})
+                yield dict(case, only=dict(only, polls=polls[:i] + [1] + polls[i + 1:]))
 
 
 def finalize(coverage, tier):
